@@ -125,7 +125,12 @@ func HarnessC11Response() {
 	case 0:
 		resp = req.SuccessResponse()
 	case 1:
-		resource = vhSimpleDoc("res", cap)
+		if vParam("doc", -2) == -2 {
+			resource = vhSimpleDoc("res", cap)
+		} else {
+			vhRegisterCustom()
+			resource = vhDoc("res", vParam("doc", -1), 1, cap)
+		}
 		resp = req.SuccessResponseWithResource(resource)
 	default:
 		reason = vhReason("reason", cap)
